@@ -179,6 +179,9 @@ class MetadorMeta:
 
     def _set_raw(self, schema_ref: PluginRef, obj: MetadataSchema) -> None:
         """Store metadata object as instance of passed schema at this node."""
+        # the node could be gone by now (if this object was kept by the caller)
+        if self._node.name not in self._mc.__wrapped__:
+            raise KeyError(f"Node does not exist: {self._node.name}")
         # reserve UUID, construct dataset path and store metadata object
         obj_uuid = self._mc.metador._links.fresh_uuid()
         obj_path = f"{self._base_dir}/{_ep_name_for(schema_ref)}={str(obj_uuid)}"
